@@ -2,7 +2,7 @@
    Statements only; every proof is `exact <lemma>`.  See DESIGN.md section 5. *)
 From Coq Require Import List ZArith String.
 From Coq.Init Require Import Byte.
-From Sif Require Import Bytes Store Format FormatFacts SpecV1 Image Machine Inv InvLoad LoadFacts Reach.
+From Sif Require Import Bytes Store Format FormatFacts SpecV1 Image Machine Inv InvLoad LoadFacts Reach Meta MetaFacts.
 From Sif.gen Require Import LayoutGen.
 Import ListNotations.
 Local Notation length := List.length.
@@ -105,6 +105,50 @@ Theorem C11_magic_version :
   (forall st, (length st < 128)%nat -> load_image st = inr EShortHeader).
 Proof. exact (conj load_refuses_magic (conj load_refuses_version load_refuses_short)). Qed.
 
+(* The architecture and hash-type tables the accessor model (Meta.v) uses are
+   the ones regenerated from /repo's arch.go and getHashType on this run:
+   two-digit code + NUL for each Go architecture name, hash types 1..5 for the
+   five crypto.Hash values (named as crypto.Hash.String() names them). *)
+Definition crypto_hash_name (h : Z) : string :=
+  match h with
+  | 5 => "SHA-256" | 6 => "SHA-384" | 7 => "SHA-512" | 16 => "BLAKE2s-256" | 17 => "BLAKE2b-256"
+  | _ => ""
+  end%Z%string.
+
+Theorem C11_accessor_tables_are_generated :
+  map (fun p => (string_of_list_byte (fst p), string_of_list_byte (firstn 2 (snd p)))) arch_names = gen_archs /\
+  forallb (fun p => bytes_eqb (skipn 2 (snd p)) [x00]) arch_names = true /\
+  string_of_list_byte (firstn 2 arch_unknown) = gen_arch_unknown /\
+  map (fun p => (crypto_hash_name (fst p), snd p)) hash_pairs = gen_hashtypes.
+Proof. repeat split; reflexivity. Qed.
+
+(* writer and reader tables are inverse: every architecture OptPartitionMetadata
+   accepts is written as a 3-byte code that GoArch maps back to the same name,
+   every code GoArch knows is the code of the name it reports, and the five
+   supported hashes survive sifHashType / getHashType *)
+Theorem C11_arch_written_reads_back :
+  forall name, get_sif_arch name <> arch_unknown ->
+  go_arch (get_sif_arch name) = name /\ length (get_sif_arch name) = 3%nat.
+Proof. exact go_arch_get_sif_arch. Qed.
+
+Theorem C11_arch_read_writes_back :
+  forall code, go_arch code <> name_unknown -> get_sif_arch (go_arch code) = code.
+Proof. exact get_sif_arch_go_arch. Qed.
+
+Theorem C11_hash_types_roundtrip :
+  forall h, supported_hash h -> get_hash_type (sif_hash_type h) = Some h.
+Proof. exact hash_roundtrip. Qed.
+
+(* group and link flag nibble: a group number below 2^28 with the flag set
+   reads back as that number and as a group; a plain object ID as an ID *)
+Theorem C11_group_flag_roundtrip :
+  forall g, (0 <= g < 268435456)%Z ->
+  group_of_raw (with_mask g) = g /\ raw_is_group (with_mask g) = true /\
+  group_of_raw g = g /\ raw_is_group g = false.
+Proof.
+  exact (fun g R => conj (group_of_with_mask g R) (conj (raw_is_group_with_mask g R) (raw_plain_link g R))).
+Qed.
+
 Print Assumptions C11_layout_generated_is_v1.
 Print Assumptions C11_written_decodes.
 Print Assumptions C11_foreign_loads.
@@ -116,3 +160,8 @@ Print Assumptions C11_codecs_follow_layout.
 Print Assumptions C11_codec_roundtrip.
 Print Assumptions C11_header_roundtrip.
 Print Assumptions C11_descriptor_roundtrip.
+Print Assumptions C11_accessor_tables_are_generated.
+Print Assumptions C11_arch_written_reads_back.
+Print Assumptions C11_arch_read_writes_back.
+Print Assumptions C11_hash_types_roundtrip.
+Print Assumptions C11_group_flag_roundtrip.
